@@ -182,6 +182,10 @@ class EventManager(Runnable):
             self.backoff()
         except CloudCursorError as e:
             log.exception("Cursor error... resetting cursor. %s", e)
+            # the walk that makes up for the events skipped by the cursor reset must survive a restart:
+            # forget the persisted "walked" marker before the fresh cursor is persisted
+            if self._walk_tag is not None:
+                self.state.storage_delete_tag(self._walk_tag)
             self.provider.current_cursor = self.provider.latest_cursor
             self._save_current_cursor()
             self.need_walk = True
